@@ -8,7 +8,7 @@ from ..machine import GenTask, Pool, end_task, simplify_ops_terms
 PROP = 'C02'
 LEVEL = 'exploration'
 CASES_ARE_COUNTED = True      # evidence 'evaluations' = executed unifications (counter 'cases')
-TIERS = {'quick': {'runs': 24000, 'budget_s': 40}, 'thorough': {'runs': 1500000, 'budget_s': 600}}
+TIERS = {'quick': {'runs': 16000, 'budget_s': 45}, 'thorough': {'runs': 1500000, 'budget_s': 600}}
 RULE = ('one run = one seeded history of NEWVAR / PUSH(t1,t2[,swap-trial][,atoms made by another engine]) / POP(close|drop|resume) / CREATE (generator '
         'made now) + START (started later, under at least the bindings it was made under) on one engine, 12% of the runs in chain mode '
         '(alias chains of 9-14 variables whose far end is bound, looked up, unbound and re-bound); '
@@ -25,7 +25,7 @@ ASSUMPTIONS = [
 COMPONENTS = {'real': ['yldprolog.engine unify/Variable/Atom/Functor/unify_arrays', 'CPython generators, refcount finalisation'],
               'stub': ['consumer (seeded scheduler holding the generators)'],
               'oracle': ['Robinson unifier over tuple terms with substitution stack (ypsim.terms)']}
-REQUIRED_PROBES = ('push_under_long_chain', 'started_under_more_bindings_than_created', 'atoms_of_another_engine', 'push_ok', 'push_fail', 'push_under_bindings', 'pop_close', 'pop_drop', 'pop_resume', 'pop_throw', 'fault_recursion_inside_unify', 'swap_trial')
+REQUIRED_PROBES = ('push_under_long_chain', 'started_under_more_bindings_than_created', 'atoms_of_another_engine', 'push_ok', 'push_fail', 'push_under_bindings', 'pop_close', 'pop_drop', 'pop_resume', 'pop_throw', 'fault_recursion_inside_unify', 'fault_boundvar', 'swap_trial')
 
 
 def gen(seed, tier):
@@ -59,7 +59,7 @@ def gen(seed, tier):
         elif k < 0.15:
             ops.append(['START', rng.randrange(3)])
         elif k < 0.17:
-            ops.append(['FAULT', rng.choice(('list', 'nest'))])
+            ops.append(['FAULT', rng.choice(('list', 'nest')), rng.choice(('terms', 'boundvar', 'boundvar')), rng.randrange(nv)])
         elif k < 0.06 + p_pop:
             ops.append(['POP', rng.choice(('close', 'drop', 'resume', 'throw'))])
         else:
@@ -210,35 +210,47 @@ def execute(plan):
                 if not judge(t1, t2, e1, e2, lambda: unify(e1, e2), op[3], foreign, 'push'):
                     break
             elif op[0] == 'FAULT':
-                # the recursion limit strikes inside a unification of two 600-deep terms (started under the current
-                # stack, with a pool variable at the bottom); the consumer handles the RecursionError.  Later
-                # unifications must behave as if it had never been attempted.
-                import sys
-                a = b = None
-                for kk in range(600):
-                    a = yp.atom('end') if a is None else (yp.listpair(yp.atom('e'), a) if op[1] == 'list' else yp.functor('w', [a]))
-                    b = pool.vars[0] if b is None else (yp.listpair(yp.atom('e'), b) if op[1] == 'list' else yp.functor('w', [b]))
-                ft = GenTask(unify(a, b))
-                old = sys.getrecursionlimit()
+                # Depth fault: the interpreter raises RecursionError in the middle of a unification or of a
+                # dereference started under the current stack; the consumer handles it.  Later unifications must
+                # behave as if it had never been attempted.
+                from ..machine import deep_model_term, LowRecursionLimit
+                how = op[2] if len(op) > 2 else 'terms'
                 raised = False
-                f_ = sys._getframe()
-                depth_ = 0
-                while f_ is not None:
-                    depth_ += 1
-                    f_ = f_.f_back
-                try:
-                    sys.setrecursionlimit(depth_ + 80)
-                    try:
-                        if ft.step():
-                            ft.close()
-                    except RecursionError:
-                        raised = True
-                finally:
-                    sys.setrecursionlimit(old)
-                ft.drop()
-                del a, b
+                if how == 'boundvar' and len(stack) < plan.get('max_depth', 6):
+                    # first bind a pool variable to a 150-deep term (an ordinary, judged unification) ...
+                    vi = (op[3] if len(op) > 3 else 0) % len(pool)
+                    t1, t2 = ('v', vi), deep_model_term(op[1], 150)
+                    if TM.munify_any_order_cyclic(t1, t2, s):
+                        log.ev('skip-cyclic')
+                        continue
+                    e1, e2 = pool.build(t1), pool.build(t2)
+                    if not judge(t1, t2, e1, e2, lambda: unify(e1, e2), False, False, 'push-deep'):
+                        break
+                    # ... then dereference it through a unification with only 60 frames of stack left
+                    w = yp.variable()
+                    with LowRecursionLimit(60):
+                        try:
+                            ft = GenTask(unify(pool.vars[vi], w))
+                            if ft.step():
+                                ft.close()
+                        except RecursionError:
+                            raised = True
+                    ft = None
+                else:
+                    a = pool.build(deep_model_term(op[1], 600))
+                    b = pool.build(deep_model_term(op[1], 600, ('v', 0)))
+                    with LowRecursionLimit(80):
+                        try:
+                            ft = GenTask(unify(a, b))
+                            if ft.step():
+                                ft.close()
+                        except RecursionError:
+                            raised = True
+                    ft = None
+                    del a, b
                 log.count('fault_recursion_inside_unify')
-                log.ev('fault', op[1], raised)
+                log.count('fault_' + how)
+                log.ev('fault', op[1], how, raised)
             elif op[0] == 'CREATE':
                 if len(pending) >= 3:
                     log.ev('create-noop')
